@@ -108,7 +108,7 @@ def render(ans, nm):
 def gen_argv(rng):
     f = rng.choice([3.5, 7.15, 14.2, 28.0])
     argv = ['-f', repr(f)]
-    kind = rng.choice(['dipole', 'bent', 'ground', 'taper', 'arc', 'helix', 'fuzz'])
+    kind = rng.choice(['dipole', 'bent', 'ground', 'taper', 'arc', 'helix', 'fuzz', 'emul-join', 'emul-join'])
     L = 299.8 / f / 4
     if kind == 'dipole':
         argv += ['-w', '%d,0,0,%g,0,0,%g,%g' % (rng.randint(3, 9), -L, L, 0.001)]
@@ -119,6 +119,26 @@ def gen_argv(rng):
         argv += ['-w', '%d,0,0,0,0,0,%g,.001' % (rng.randint(3, 8), L)]
     elif kind == 'taper':
         argv += ['-w', '8,0,0,0,0,0,%g,.0005' % (2 * L), '--taper-wire=1,%d' % rng.choice([1, 2, 3])]
+    elif kind == 'emul-join':
+        # an object BASIC cannot express directly (arc, helix, tapered wire: written as one single-segment wire per
+        # segment) whose FIRST end meets an end of an earlier object within the joining tolerance but not bit for bit:
+        # BASIC joins ends on equal coordinates only, so the written points of one joint must be one point
+        R = L / 2
+        sub = rng.choice(['arc90', 'arc270', 'taper', 'helix'])
+        if sub == 'arc90':          # arc starts at (R cos 90, 0, R) = (6e-17, 0, R)
+            argv += ['-w', '1,3,0,0,0,0,0,%r,.001' % R, '-a', '2,%d,%r,90,%d,.001' % (rng.randint(4, 7), R, rng.choice([180, 200, 270]))]
+        elif sub == 'arc270':       # starts at (-2e-16, 0, -R)
+            argv += ['-w', '1,3,0,0,%r,0,0,%r,.001' % (-2 * R, -R), '-a', '2,%d,%r,270,%d,.001' % (rng.randint(4, 7), R, rng.choice([360, 400]))]
+        elif sub == 'taper':
+            eps = L / 8 * 1e-3 * rng.choice([0.2, 0.02])
+            argv += ['-w', '1,3,0,0,0,0,0,%r,.0005' % L, '-w', '2,8,%r,0,%r,%r,0,%r,.0005' % (eps, L, 2 * L, L + L / 3),
+                     '--taper-wire=2,%d' % rng.choice([1, 2, 3])]
+        else:
+            # helix axis along z from the origin; its first point is (rx, 0, 0): a wire ends there, a hair off
+            rx = L / 3
+            eps = L / 30 * 1e-3 * 0.3
+            argv += ['-w', '1,3,%r,0,%r,%r,%r,0,.001' % (rx + L / 2, -L / 4, rx, eps),
+                     '-H', '2,%d,%g,%g,.001,%g,%g' % (rng.randint(6, 10), L / 3, L / 3, rx, rx)]
     elif kind == 'arc':
         argv += ['-a', '%d,%g,0,%d,.001' % (rng.randint(4, 8), L / 2, rng.choice([90, 180, 270]))]
     elif kind == 'helix':
@@ -288,6 +308,24 @@ def property_on_impl(argv, version):
     nseg = sum(w[0] for w in rd['wires'])
     if nseg != sum(w.n_segments for w in m.geo):
         return 'emulated wires have %d segments in total, model has %d' % (nseg, sum(w.n_segments for w in m.geo))
+    # BASIC joins two wire ends when their coordinates are equal (single precision), not within a tolerance: the wires as
+    # written must produce the pulse count of the model — sum (segments - 1) + one per joint end after the first + one per
+    # end on the ground plane
+    f32 = lambda v: tuple(float(np.float32(x)) for x in v)
+    seen, npulse = set(), 0
+    for (ns, p1, p2, rr) in rd['wires']:
+        npulse += ns - 1
+        for e in (p1, p2):
+            k = f32(e)
+            if rd['env'] == '-1' and k[2] == 0.0:
+                npulse += 1
+            elif k in seen:
+                npulse += 1
+            else:
+                seen.add(k)
+    if npulse != len(m.pulses):
+        return ('read as BASIC reads it (ends are joined when their coordinates are equal) the written wires give %d current '
+                'pulses, the model has %d: the pulse numbers of sources and loads address other places' % (npulse, len(m.pulses)))
     # loads given as S-parameters: the rational function the answers describe (BASIC version 9 takes the coefficients in
     # microhenry / microfarad units, i.e. of s in 1e6/s) is the impedance the model uses for that pulse
     if rd['loads'] and not any(isinstance(x[1], complex) for x in rd['loads']):
